@@ -1,12 +1,15 @@
 /- driver ops for the BoC emitter model and the strict reader spec:
    bocemit <dag> <root> <opts>     -> ok <hex>            (opts = 3 chars idx,crc,cache e.g. 110; optional 4th arg flags)
+   bocemitall <dag> <root>         -> ok <hex> x6         (the six valid option sets 000 010 100 110 101 111)
    bocorder <dag> <root>           -> ok <hash.hash...>   (the model of Cell.order)
    bocstrict <hex>                 -> ok <roots> <rec|rec|...>   rec = d1,bits,refs,hash     | err
    bocflat <hex>                   -> same without the semantic layer (hash = -)
+   bocinput <hex of the ASCII text> -> ok <hex>           (Boc.__init__ on a str: fromhex, else base64)
    DAG syntax as in celldag (child-before-parent). -/
 import TonVerif.Drv.Cell
 import TonVerif.Model.BocEmit
 import TonVerif.Spec.Boc
+import TonVerif.Model.BocForms
 
 namespace TonVerif.Drv
 open TonVerif TonVerif.Model
@@ -37,6 +40,19 @@ def handleEmit (dag root opts : String) (flags : Nat) : String :=
   match parseOpts opts flags with
   | none => "bad-op"
   | some o => withRoot dag root (fun n p => optHex (p.toBoc (6 * n + 2) o))
+
+def allOpts : List Opts := [⟨false, false, false, 0⟩, ⟨false, true, false, 0⟩, ⟨true, false, false, 0⟩,
+  ⟨true, true, false, 0⟩, ⟨true, false, true, 0⟩, ⟨true, true, true, 0⟩]
+
+/-- the six valid option sets in the order of harness/gen/bocdags.py OPTS; the cells are ordered once -/
+def handleEmitAll (dag root : String) : String :=
+  withRoot dag root (fun n p =>
+    match p.order (6 * n + 2) with
+    | none => "err"
+    | some cells =>
+      match flattenCells (indexMap cells) cells with
+      | none => "err"
+      | some recs => "ok " ++ " ".intercalate (allOpts.map (fun o => match emit recs o with | some b => hexOfBytes b | none => "x")))
 
 def handleOrder (dag root : String) : String :=
   withRoot dag root (fun n p =>
@@ -69,14 +85,22 @@ def handleFlat (hex : String) : String :=
       let recs := f.recs.map (fun r => s!"{r.d1},{showBits r.bits},{showNats r.refs},-")
       s!"ok {showNats f.roots} " ++ "|".intercalate recs
 
+/-- `Boc(data).data` for a `str` argument given as the hex of its ASCII bytes -/
+def handleInput (hex : String) : String :=
+  match hexArg hex with
+  | none => "bad-op"
+  | some codes => optHex (Model.BocForms.inputBytes (.inr (codes.map Char.ofNat)))
+
 namespace Boc
 def handle? (op : String) (args : List String) : Option String :=
   match op, args with
   | "bocemit", [d, r, o] => some (handleEmit d r o 0)
   | "bocemit", [d, r, o, f] => some (match f.toNat? with | some fl => handleEmit d r o fl | none => "bad-op")
+  | "bocemitall", [d, r] => some (handleEmitAll d r)
   | "bocorder", [d, r] => some (handleOrder d r)
   | "bocstrict", [h] => some (handleStrict h)
   | "bocflat", [h] => some (handleFlat h)
+  | "bocinput", [h] => some (handleInput h)
   | _, _ => none
 end Boc
 
